@@ -49,6 +49,17 @@ def _asked(run: Run) -> set[str]:
     return {"explicit" if q.name == EXPLICIT_QUERY else "other" for q in run.queries if _sat(q.guard)}
 
 
+def _asked_taint(*runs: Run) -> str:
+    """Non-empty when a question is asked under a condition the interpreter could not evaluate (the configuration flags are
+    concrete in every evaluated rule, so such a condition stems from a computation the interpreter does not model): whether the
+    question is asked at this point is then not known."""
+    for run in runs:
+        for q in run.queries:
+            if q.guard not in (TRUE, FALSE) and _sat(q.guard) and _sat(f_not(q.guard)):
+                return f"`{q.name}` is asked under `{show(q.guard)[:140]}`, a condition the interpreter could not evaluate"
+    return ""
+
+
 def _sat(f) -> bool:
     try:
         return satisfiable(f)
@@ -85,13 +96,13 @@ def run_t1(repo: Repo, res: Result, inl: Inliner | None, markers: dict) -> None:
             got = {imp: kind in _asked(run_scenario(repo, Scenario(verb, exc, imp))) for imp in (True, False)}
             ok = all(g == want for g in got.values())
             said = "asked" if all(got.values()) else "not asked" if not any(got.values()) else f"asked only for {'import' if got[True] else 'be-imported-by'} rules"
-            res.add(
-                "C01.T1",
+            _add(
+                res, "C01.T1",
                 f"{prefix}::{kind} question @ {point_name(verb, exc)}",
                 ok,
                 f"'{point_name(verb, exc)}': the {kind} graph question is {said}, documented: {'asked' if want else 'not asked'}",
                 loc,
-                kind="decision-table",
+                "decision-table", _asked_taint(*[run_scenario(repo, Scenario(verb, exc, imp)) for imp in (True, False)]),
             )
     # every legal rule shape is evaluated up to the verdict: no exception on the way
     for sc in legal_scenarios():
@@ -155,7 +166,7 @@ def run_t2_t3(repo: Repo, res: Result, inl: Inliner | None, sem: dict) -> None:
                     res, "C01.T3", f"{grv.relpath}::{grv.qualname}::starvation @ {point_name(verb, exc)}", False,
                     f"'{sc.name}': buckets read {sorted(map(str, used))}, questions asked {sorted(asked)}"
                     + (": a bucket whose data is never requested receives None and passes vacuously" if used - asked else ": a question is asked whose answer no bucket reads"),
-                    where(grv, grv.node), "decision-table", und,
+                    where(grv, grv.node), "decision-table", und or _asked_taint(run_scenario(repo, sc)),
                 )
                 break
     res.analysed["bucket_table"] = table
@@ -184,37 +195,84 @@ def _side(v) -> set:
     return roots_of(v) & {"S", "O"}
 
 
+def _expansions_in(node: ast.AST) -> set[str]:
+    """Neighbour expansions named in a piece of code: `graph.direct_successor_nodes`, also as getattr(graph, "direct_...")."""
+    out: set[str] = set()
+    for n in ast.walk(node):
+        if isinstance(n, ast.Attribute) and n.attr in (SUCC, PRED):
+            out.add(n.attr)
+        elif isinstance(n, ast.Constant) and n.value in (SUCC, PRED):
+            out.add(n.value)
+    return out
+
+
+def _reachable_units(repo: Repo, fi: FuncInfo) -> list[ast.AST]:
+    """The function and everything of the repo it can reach by name: functions and *classes* (all their methods: traversal
+    objects, iterator protocols, strategy classes) of its own module or imported from another repo module."""
+    seen: set[str] = set()
+    units: list[ast.AST] = []
+    work: list = [fi]
+    while work:
+        u = work.pop()
+        key = u.fq
+        if key in seen:
+            continue
+        seen.add(key)
+        node = u.node
+        units.append(node)
+        mod = u.module
+        for n in ast.walk(node):
+            if not isinstance(n, ast.Name) or not isinstance(n.ctx, ast.Load):
+                continue
+            target = None
+            if n.id in mod.functions:
+                target = mod.functions[n.id]
+            elif n.id in mod.classes:
+                target = mod.classes[n.id]
+            elif n.id in mod.imports:
+                fq = repo.resolve_name(mod, n)
+                m2, _, attr = (fq or "").rpartition(".")
+                om = repo.modules.get(m2)
+                if om is not None:
+                    target = om.functions.get(attr) or om.classes.get(attr)
+            if target is not None:
+                work.append(target)
+    return units
+
+
 def search_direction(repo: Repo, fi: FuncInfo) -> str | None:
     """pred | succ: which neighbours a search function of breadth_first_searches expands to find import edges.
 
     A backward search reaches a `direct_predecessor_nodes` expansion (it may also walk down the hierarchy through successors);
-    a forward search reaches successor expansions only.
-    """
-    mod = fi.module
-    seen, work = set(), [fi]
-    attrs: set[str] = set()
-    while work:
-        f = work.pop()
-        if f.fq in seen:
-            continue
-        seen.add(f.fq)
-        for n in ast.walk(f.node):
-            if isinstance(n, ast.Attribute) and n.attr in (SUCC, PRED):
-                attrs.add(n.attr)
-            if isinstance(n, ast.Call) and isinstance(n.func, ast.Name):
-                if n.func.id in mod.functions:
-                    work.append(mod.functions[n.func.id])
-                else:  # a search helper imported from another module
-                    fq = repo.resolve_name(f.module, n.func)
-                    m2, _, attr = (fq or "").rpartition(".")
-                    om = repo.modules.get(m2)
-                    if om is not None and attr in om.functions:
-                        work.append(om.functions[attr])
-    if PRED in attrs:
+    a forward search reaches successor expansions only.  No inner shape is required: (1) an expansion named in the function's own
+    body decides; (2) otherwise the function is *interpreted* with a symbolic graph and the expansions it actually asks the graph for
+    are observed (traversal classes, iterator protocols, a direction chosen by a constant argument are followed); (3) otherwise
+    everything reachable by name is scanned."""
+    cache = repo.__dict__.setdefault("_c01_search_dir", {})
+    if fi.fq in cache:
+        return cache[fi.fq]
+    own = _expansions_in(fi.node)
+    if PRED in own:
+        cache[fi.fq] = "pred"
         return "pred"
-    if SUCC in attrs:
-        return "succ"
-    return None
+    observed: set[str] = set()
+    try:
+        home = fi.module.name
+        I = Interp(repo, lambda f: f.module.name == home or ((f.cls is None or f.is_staticmethod) and f.outer is None and simple_helper(f)))
+        args = [Sym(("root", p)) for p in fi.param_names]
+        I.invoke(fi, None, args, {}, None, None, None)
+        observed = {e.name for e in I.events if e.kind == "call" and e.name in (SUCC, PRED)}
+    except (AnalysisError, RecursionError):
+        observed = set()
+    if observed:
+        d = "pred" if PRED in observed else "succ"
+    else:
+        attrs: set[str] = set()
+        for u in _reachable_units(repo, fi):
+            attrs |= _expansions_in(u)
+        d = "pred" if PRED in attrs else "succ" if SUCC in attrs else None
+    cache[fi.fq] = d
+    return d
 
 
 def _stub(f: FuncInfo) -> bool:
@@ -261,6 +319,11 @@ def graph_query_model(repo: Repo, qname: str) -> dict:
                     else:
                         coll |= r
             entries.append((roots_of(k) & {"P1", "P2"}, scalar, coll, call))
+    # the search whose result becomes the answer decides the orientation (helper searches - e.g. the sub-module closure of the
+    # objects - may run in the same method)
+    feeding = {search_direction(repo, c.callee) for _k, _s, _c, c in entries if c is not None}
+    if feeding:
+        dirs = feeding
     return {"method": m, "directions": dirs, "entries": entries, "searches": searches, "notes": I.notes, "result": out}
 
 
@@ -647,7 +710,8 @@ def run_t5(repo: Repo, res: Result) -> None:
         zero = {"cfg.should": False, "cfg.should_only": False, "cfg.except_present": False}
         asked = {"explicit" if q.name == EXPLICIT_QUERY else "other" for q in run.queries if _sat(assign_atoms(q.guard, zero))}
         ok = asked == {"other"}
-        res.add("C01.T5", f"{aa.relpath}::{aa.qualname}::alias rewrite [{tag} anything: question]", ok, f"'should not {tag} anything' asks {sorted(asked)}" + ("" if ok else ", expected the 'other' question only (neg(any edge))"), where(aa, aa.node), kind="decision-table")
+        alias_taint = next((f"`{q.name}` is asked under `{show(assign_atoms(q.guard, zero))[:140]}`, a condition the interpreter could not evaluate" for q in run.queries if assign_atoms(q.guard, zero) not in (TRUE, FALSE) and _sat(assign_atoms(q.guard, zero)) and _sat(f_not(assign_atoms(q.guard, zero)))), "")
+        _add(res, "C01.T5", f"{aa.relpath}::{aa.qualname}::alias rewrite [{tag} anything: question]", ok, f"'should not {tag} anything' asks {sorted(asked)}" + ("" if ok else ", expected the 'other' question only (neg(any edge))"), where(aa, aa.node), "decision-table", alias_taint)
 
 
 # the public vocabulary that names modules (RuleSubject / RuleObject) and the methods that announce rule objects
